@@ -254,50 +254,61 @@ def numpy_dispatchables():
     return out
 
 
-MARK = object()
+MARK_NS, MARK_TY = object(), object()
 
 
-def observe_lookup(x, func, nargs, nkw):
-    """which branch of __array_function__ answers, observed by patching the candidates with markers"""
+def marker_like(orig, mark):
+    """a stand-in that returns `mark` and keeps the signature of `orig` (so that a signature test in the dispatcher sees the original)"""
+    import functools
+
+    def standin(*a, **k):
+        return mark
+    try:
+        return functools.wraps(orig)(standin)
+    except (AttributeError, TypeError):
+        return standin
+
+
+def observe_lookup(x, func, nargs, kws):
+    """which branch of __array_function__ answers, observed by replacing the candidates with signature-preserving markers"""
+    import contextlib
+
     import sparse
 
     name = func.__name__
     args = (x,) + (0,) * (nargs - 1)
-    kwargs = {f"kw{i}": 0 for i in range(nkw)}
+    kwargs = {k: 0 for k in kws}
     path = getattr(func, "__module__", "numpy").split(".")[1:]
-    res = {}
-    # 1. namespace candidate
-    mod = sparse
-    ok = True
+    cls = type(x)
+    mod, ok = sparse, True
     for p in path:
         if not hasattr(mod, p):
             ok = False
             break
         mod = getattr(mod, p)
-    if ok and hasattr(mod, name):
-        with mock.patch.object(mod, name, lambda *a, **k: MARK):
-            r, e = call(lambda: x.__array_function__(func, (type(x),), args, kwargs))
-        return "namespace" if r is MARK else f"?ns:{e!r}"
-    cls = type(x)
-    static = None
-    for c in cls.__mro__:
-        if name in c.__dict__:
-            static = (c, c.__dict__[name])
-            break
-    if static is not None and callable(getattr(cls, name, None)):
-        with mock.patch.object(static[0], name, lambda *a, **k: MARK):
-            r, e = call(lambda: x.__array_function__(func, (cls,), args, kwargs))
-        return "type" if r is MARK else f"?type:{e!r}"
-    r, e = call(lambda: x.__array_function__(func, (cls,), args, kwargs))
+    ns_there = ok and hasattr(mod, name)
+    static = next(((c, c.__dict__[name]) for c in cls.__mro__ if name in c.__dict__), None)
+    ty_callable = static is not None and callable(getattr(cls, name, None))
+    with contextlib.ExitStack() as st:
+        if ns_there:
+            st.enter_context(mock.patch.object(mod, name, marker_like(getattr(mod, name), MARK_NS)))
+        if ty_callable and inspect.isfunction(static[1]):
+            st.enter_context(mock.patch.object(static[0], name, marker_like(static[1], MARK_TY)))
+        r, e = call(lambda: x.__array_function__(func, (cls,), args, kwargs))
+    if r is MARK_NS:
+        return "namespace"
+    if r is MARK_TY:
+        return "type"
     if r is NotImplemented:
         return "notimplemented"
+    if ns_there:
+        return f"?ns:{e!r}"
     if e is None and hasattr(x, name):
         v, e2 = call(lambda: getattr(x, name))
         if e2 is None and (r is v or same_scalar(r, v)):
             return "attr"
-    if e is not None and static is not None:
-        return "type"  # a non-callable class attribute was called: TypeError from the call
-    _ = res
+    if static is not None:
+        return "type"  # a class attribute that is not a plain function (classmethod / non-callable) was called
     return f"?{type(r).__name__}:{e!r}"
 
 
@@ -314,7 +325,7 @@ def leg_a_lookup(ctx, table):
     real = {(p, f.__name__) for p, f in funcs}
     if tab != real:
         ctx.fail("T1", "numpy-functions", {"diff": sorted(tab ^ real)[:10]}, "the list of array-function-dispatched NumPy functions differs")
-    shapes = [(1, 0), (2, 0), (1, 1)]
+    shapes = [(1, []), (2, []), (1, ["kw0"]), (2, ["axis"]), (1, ["axis"]), (3, [])]
     d = np.array([[1.0, 0.0, 2.0], [0.0, 3.0, 0.0]])
     n = 0
     for cn in CLASSES:
@@ -322,14 +333,14 @@ def leg_a_lookup(ctx, table):
         qs = []
         for pub, f in funcs:
             path = getattr(f, "__module__", "numpy").split(".")[1:]
-            for na, nk in shapes:
-                qs.append([path, f.__name__, na, nk])
+            for na, kws in shapes:
+                qs.append([path, f.__name__, na, kws])
         model = ctx.driver.run([["c17_nep18", cn, qs]])[0]["ok"]
         i = 0
         for pub, f in funcs:
-            for na, nk in shapes:
-                got = observe_lookup(x, f, na, nk)
-                case = {"class": cn, "func": pub, "nargs": na, "nkw": nk}
+            for na, kws in shapes:
+                got = observe_lookup(x, f, na, kws)
+                case = {"class": cn, "func": pub, "nargs": na, "kwargs": kws}
                 ctx.case(f"A:nep18:{model[i]}", case, nontrivial=model[i] != "notimplemented" or na == 1)
                 n += 1
                 if got != model[i]:
@@ -378,6 +389,33 @@ def resolved_callable(x, pub_func):
     return None, False
 
 
+def bind_probe(f, p):
+    """where inspect.Signature.bind puts one argument passed the way the probe says"""
+    sig = inspect.signature(f)
+    S = object()
+    try:
+        if "pos" in p["way"]:
+            ba = sig.bind_partial(*([None] * p["way"]["pos"] + [S]))
+        else:
+            ba = sig.bind_partial(**{p["way"]["kw"]: S})
+    except TypeError:
+        return "rejected"
+    where = None
+    for k, v in ba.arguments.items():
+        par = sig.parameters[k]
+        if v is S:
+            where = k
+        elif par.kind == par.VAR_POSITIONAL and any(u is S for u in v):
+            where = "*"
+        elif par.kind == par.VAR_KEYWORD and any(u is S for u in v.values()):
+            where = "**"
+    if where in ("*", "**"):
+        return "catchAll"
+    if where == p["param"] or p["way"].get("pos") == 0:
+        return "accepted"
+    return {"misbound": where}
+
+
 def leg_a_probes(ctx, table):
     """every probe of the model (NumPy parameter x way) against inspect.Signature.bind on the really resolved callable"""
     n = 0
@@ -396,30 +434,14 @@ def leg_a_probes(ctx, table):
             if f is None:
                 ctx.fail("A", "model:probe", case, "model has a by-name target, real lookup finds none")
                 continue
-            sig = inspect.signature(f)
-            S = object()
-            try:
-                if "pos" in p["way"]:
-                    ba = sig.bind_partial(*([None] * p["way"]["pos"] + [S]))
-                else:
-                    ba = sig.bind_partial(**{p["way"]["kw"]: S})
-                where = None
-                for k, v in ba.arguments.items():
-                    par = sig.parameters[k]
-                    if v is S:
-                        where = k
-                    elif par.kind == par.VAR_POSITIONAL and any(u is S for u in v):
-                        where = "*"
-                    elif par.kind == par.VAR_KEYWORD and any(u is S for u in v.values()):
-                        where = "**"
-                if where in ("*", "**"):
-                    got = "catchAll"
-                elif where == p["param"] or p["way"].get("pos") == 0:
-                    got = "accepted"
-                else:
-                    got = {"misbound": where}
-            except TypeError:
-                got = "rejected"
+            got = bind_probe(f, p)
+            if got not in ("accepted", "catchAll") and table.get("bind_fallback") and not via_type:
+                # the `_binds` step of __array_function__: a call the namespace function cannot take goes to the method that can
+                meth = getattr(type(x), pubs[p["pub"]].__name__, None)
+                if callable(meth):
+                    got2 = bind_probe(meth, p)
+                    if got2 in ("accepted", "catchAll"):
+                        got = got2
             if got != p["result"]:
                 ctx.fail("A", "model:probe", case, f"model {p['result']} Signature.bind {got} on {getattr(f, '__qualname__', f)}")
     ctx.count("probes_checked", n)
@@ -430,7 +452,7 @@ def leg_a_probes(ctx, table):
 # leg C: the spelling matrix on values
 # ------------------------------------------------------------------------------------------------
 
-def agree(ctx, family, case, spellings, ref_thunk, must_be_sparse=True):
+def agree(ctx, family, case, spellings, ref_thunk, must_be_sparse=True, dtype_matters=False):
     """all spellings give NumPy's answer (or all reject cleanly when NumPy does), results stay sparse"""
     import sparse
 
@@ -454,6 +476,10 @@ def agree(ctx, family, case, spellings, ref_thunk, must_be_sparse=True):
             continue
         if not same(v, ref):
             msg = f"{name} differs from NumPy: got {np.asarray(dense_of(v)).tolist()!r:.160} numpy {np.asarray(ref).tolist()!r:.160}"
+            ctx.fail("C", family, c, msg, finding=findings.classify(PID, family, c, msg))
+            continue
+        if dtype_matters and np.asarray(dense_of(v)).dtype != np.asarray(ref).dtype:
+            msg = f"{name} returned dtype {np.asarray(dense_of(v)).dtype}, NumPy (and the keyword) say {np.asarray(ref).dtype}"
             ctx.fail("C", family, c, msg, finding=findings.classify(PID, family, c, msg))
             continue
         if must_be_sparse and np.ndim(ref) > 0 and not isinstance(v, sparse.SparseArray | tuple | list):
@@ -506,6 +532,14 @@ def leg_c(ctx, rng, rounds):
                                 sp_["ufunc.reduce"] = lambda: uf.reduce(xx, axis=axis, keepdims=keepdims)
                             agree(ctx, f"C:reduce:{name}", dict(base, op=name, axis=axis, keepdims=keepdims, x=dd.tolist()), sp_,
                                   lambda: getattr(np, name)(dd, axis=axis, keepdims=keepdims))
+                for name in ("sum", "prod", "mean"):
+                    # the dtype keyword is observable in the result's dtype
+                    agree(ctx, f"C:reduce:{name}:dtype", dict(base, op=name, dtype="float32"), {
+                        "method(dtype)": lambda: getattr(x, name)(axis=0, dtype=np.float32),
+                        "sparse.f(dtype)": lambda: getattr(sparse, name)(x, axis=0, dtype=np.float32),
+                        "xp.f(dtype)": lambda: getattr(xp, name)(x, axis=0, dtype=np.float32),
+                        "np.f(dtype)": lambda: getattr(np, name)(x, axis=0, dtype=np.float32),
+                    }, lambda: getattr(np, name)(d, axis=0, dtype=np.float32), dtype_matters=True)
                 for name in ("var", "std"):
                     k = int(rng.integers(0, 2))
                     agree(ctx, f"C:reduce:{name}:ddof", dict(base, op=name, ddof=k), {
@@ -734,7 +768,7 @@ def leg_c_unimplemented(ctx, table):
     n = 0
     for cn in CLASSES:
         x = as_format(d, cn)
-        qs = [[getattr(f, "__module__", "numpy").split(".")[1:], f.__name__, 1, 0] for f in funcs.values()]
+        qs = [[getattr(f, "__module__", "numpy").split(".")[1:], f.__name__, 1, []] for f in funcs.values()]
         model = ctx.driver.run([["c17_nep18", cn, qs]])[0]["ok"]
         for (pub, f), m in zip(funcs.items(), model):
             if m != "notimplemented":
@@ -811,7 +845,7 @@ def run(ctx):
     leg_a_lookup(ctx, table)
     violations = leg_a_probes(ctx, table)
     replay_witnesses(ctx, reports)
-    leg_c(ctx, rng, 4 if ctx.quick else 40)
+    leg_c(ctx, rng, 4 if ctx.quick else 120)
     leg_c_numpy_style(ctx, violations, table)
     leg_c_unimplemented(ctx, table)
     ctx.cov["rule"] = ("T1: every row of the generated dispatch table against introspection and recorded forwarding calls; leg A: the lookup model "
